@@ -409,7 +409,8 @@ def classify(drv, stmt, op, a, x0, x1, mm0, mm1, cache, listed):
         return "known:D2-keyword-alias", det
     if "D2-keyword-error" in listed and subquery_keyword_error(stmt, op, s0, s1):
         return "known:D2-keyword-error", det
-    if "D9-alias-leak" in listed and owner_only_difference(s0, s1) and (alias_leak_shape(stmt) or alias_leak_shape(a["stmt"])):
+    if "D9-alias-leak" in listed and "error" not in s0 and "error" not in s1 and s0["tables"] == s1["tables"] and \
+            (alias_leak_shape(stmt) or alias_leak_shape(a["stmt"])):
         return "known:D9-alias-leak", det
     if cls == "d7" and "D7" in listed and owner_only_difference(s0, s1):
         # the model does not describe this case — a select-item subquery (`_get_column_from_subquery`), or a dialect that reads
